@@ -5,6 +5,7 @@ package c14
 // the user, the nonce and the OTHER artefacts of the same response.
 
 import (
+	"context"
 	"net/http"
 	"net/url"
 	"strings"
@@ -428,4 +429,71 @@ func ZZ_C14_unsatisfied() {
 			e.checkIDT("unsat.redeem", idt2, tr.GetAccessToken(), "", false)
 		}
 	}
+}
+
+// ZZ_C14_reconfigured: the server's signing key is ROTATED (the key getter changes its answer, possibly to a
+// key of another algorithm) and the issuer and ID Token lifetime are changed between two implicit responses of
+// one provider: the second ID Token verifies under the key in use NOW, names the issuer configured NOW, expires
+// within the lifetime configured NOW, and its at_hash is computed for the access token next to it.
+func ZZ_C14_reconfigured() {
+	ks := []int{0, 2, 3}
+	k1 := newServerKey(ks[zz.Choice("key1", 3)])
+	k2 := newServerKey(ks[zz.Choice("key2", 3)])
+	cur := k1
+	getter := func(context.Context) (interface{}, error) { return cur.jwk, nil }
+	w := world.New(world.Options{
+		Tweak: func(cfg *fosite.Config) {
+			cfg.IDTokenIssuer = issuer
+			cfg.IDTokenLifespan = time.Hour
+		},
+		TweakStrategy: func(s *compose.CommonStrategy, cfg *fosite.Config) {
+			s.OpenIDConnectTokenStrategy = compose.NewOpenIDConnectStrategy(getter, cfg)
+			s.Signer = &jwt.DefaultSigner{GetPrivateKey: getter}
+		},
+		Extra: []compose.Factory{compose.OpenIDConnectImplicitFactory},
+	})
+	issue := func(alg, nonce string) (idt, at string) {
+		form := url.Values{"client_id": {"c1"}, "response_type": {"id_token token"}, "redirect_uri": {"https://c1.example/cb"},
+			"scope": {"openid photos"}, "state": {"state-0123456789"}, "nonce": {nonce}}
+		ar, err := w.Provider.NewAuthorizeRequest(w.Ctx, httpGet(form))
+		zz.Assume(err == nil)
+		ar.GrantScope("openid")
+		ar.GrantScope("photos")
+		now := time.Now()
+		sess := &openid.DefaultSession{
+			Claims:  &jwt.IDTokenClaims{Subject: "peter", AuthTime: now.Add(-60 * time.Second), RequestedAt: now.Add(-120 * time.Second)},
+			Headers: &jwt.Headers{Extra: map[string]interface{}{"alg": alg}},
+			Subject: "peter",
+		}
+		resp, err := w.Provider.NewAuthorizeResponse(w.Ctx, ar, sess)
+		zz.Assume(err == nil)
+		return resp.GetParameters().Get("id_token"), resp.GetParameters().Get("access_token")
+	}
+	idt1, _ := issue(k1.alg, "nonce-of-the-first")
+	_, err := decode(idt1, k1.pub)
+	zz.Assert(err == nil, "reconfigured: the first ID Token verifies under the first key")
+	// rotation and reconfiguration
+	cur = k2
+	issuer2 := "https://as2.example"
+	life2 := time.Duration(zz.Int("life2.s", 60, 7200)) * time.Second
+	w.Cfg.IDTokenIssuer, w.Cfg.IDTokenLifespan = issuer2, life2
+	zz.Advance(time.Duration(zz.Int("wait", 0, int64(10*time.Minute))))
+	idt2, at2 := issue(k2.alg, "nonce-of-the-second")
+	d, err := decode(idt2, k2.pub)
+	zz.Assert(err == nil, "reconfigured: the second ID Token verifies under the key in use NOW")
+	if err != nil {
+		return
+	}
+	zz.Assert(d.alg == k2.alg, "reconfigured: header algorithm is that of the key in use NOW")
+	iss, _ := d.str("iss")
+	zz.Assert(iss == issuer2, "reconfigured: iss is the issuer configured NOW")
+	n, _ := d.str("nonce")
+	zz.Assert(n == "nonce-of-the-second", "reconfigured: the nonce of ITS request")
+	exp, _ := d.num("exp")
+	nowS := time.Now().Unix()
+	zz.Assert(exp >= nowS && exp <= nowS+int64(life2/time.Second)+1, "reconfigured: exp within the lifetime configured NOW")
+	ath, _ := d.str("at_hash")
+	zz.Assert(ath == leftHalfHash(k2.alg, at2), "reconfigured: at_hash = left half of H_alg(access token of the same response)")
+	zz.Cover("reconfigured:algorithm-changed", k1.alg != k2.alg)
+	zz.Cover("reconfigured:same-algorithm-new-key", k1.alg == k2.alg)
 }
